@@ -933,6 +933,19 @@ func (w *world) checkBlock(res *stepResult, m *blockModel, trace []map[string]in
 					res.Block.Height, t.Hex(), k, got, want), map[string]interface{}{"height": res.Block.Height, "events": m.wipedEv, "txs": trace})
 				continue
 			}
+			if kw, kk := m.wiped[t], m.toKilled[t]; kw != nil && kk != nil && new(big.Int).Neg(diff).Cmp(new(big.Int).Add(kw, kk)) == 0 {
+				// both known classes hit the same asset in one block: the loss is exactly their sum (seen once, thorough
+				// tier at seed 2, case 134: 37946 units sent to a contract killed earlier in the block + 1 unit wiped by a
+				// creation); each is reported under its own key
+				wipedSeen, burned = true, true
+				c.Count("tokens_wiped_by_creation_over_holder", 1)
+				c.Count("burned_after_selfdestruct_in_same_block", 1)
+				c.Violation(keyWipe, fmt.Sprintf("height %d token %s: %v held by address(es) on which a contract was then created vanished with the creation (supply %v, law demands %v, of which %v burned after a self-destruct)",
+					res.Block.Height, t.Hex(), kw, got, want, kk), map[string]interface{}{"height": res.Block.Height, "events": m.wipedEv, "txs": trace})
+				c.Violation(keyBurn, fmt.Sprintf("height %d asset %s: %v sent to a contract that self-destructed earlier in the same block vanished at the end of the block (supply %v, law demands %v, of which %v wiped by a creation)",
+					res.Block.Height, t.Hex(), kk, got, want, kw), map[string]interface{}{"height": res.Block.Height, "events": m.toKilledEv, "txs": trace})
+				continue
+			}
 			if k := m.toKilled[t]; k != nil && new(big.Int).Neg(diff).Cmp(k) == 0 {
 				// exactly the value that was sent to contracts which an earlier transaction of the same
 				// block had self-destructed: a known class, reported once; the chain goes on
